@@ -179,6 +179,25 @@ def run(prop, cfg, tier, seed):
             why.append('the stock does not integrate the change element')
         if (assigns.get('self.%s.initial_value' % stock_attr) or [''])[0] != 'initial_value':
             why.append('initial value not passed to the stock')
+        # what the function reports: smooth = the average itself; trend = (input - average) / (average * averaging time)
+        term_fn = None
+        for n in cd.body:
+            if isinstance(n, ast.FunctionDef) and n.name == 'term':
+                term_fn = n
+        rets = [ast.unparse(x.value).replace(' ', '') for x in ast.walk(term_fn) if isinstance(x, ast.Return) and x.value is not None] if term_fn else []
+        out_attr = 'trend' if cls == 'Trend' else stock_attr
+        if rets != ['self.%s.term(time)' % out_attr]:
+            why.append('term() returns %r, expected the term of self.%s at the requested time' % (rets, out_attr))
+        if cls == 'Trend':
+            mk_t = (assigns.get('self.trend') or [''])[0]
+            if not mk_t.startswith('model.converter('):
+                why.append('the trend output is created with %r, expected a converter' % mk_t.split('(')[0])
+            eq_t = (assigns.get('self.trend.equation') or [''])[0].replace(' ', '')
+            if eq_t != '(self.input_function-self.exponential_average)/(self.exponential_average*self.averaging_time)':
+                why.append('trend equation is %r, expected (input - average)/(average * averaging_time)' % eq_t)
+        for attr in ('input_function', 'averaging_time'):
+            if (assigns.get('self.%s.equation' % attr) or [''])[0] != attr:
+                why.append('self.%s does not carry the argument %s' % (attr, attr))
         verdicts.append(dict(name=name, qualname=cls, solver='ast', secs=0, line=init.lineno,
                              status='discharged' if not why else 'counterexample', path=why or ['average\' = (input - average)/T as a biflow into a stock'],
                              model=None if not why else dict(kind='graph', cls=cls, why=why)))
